@@ -108,6 +108,7 @@ class PyIndex:
         self.funcs: Dict[str, FuncInfo] = {}
         self.registry: Dict[str, Dict[str, List[FuncInfo]]] = {}   # renderer class id -> model class id -> funcs
         self._load()
+        self._unwrap_decorators()
         self._bind()
         self._collect()
 
@@ -159,6 +160,106 @@ class PyIndex:
         self.computed_attrs = _Computed(computed, class_props)
         for name, path, rel, src in found:
             self.modules[name] = Module(name, path, rel, src, self.computed_attrs)
+
+    def _unwrap_decorators(self):
+        """`@deco def f(..)` where deco is a function of the package of the plain wrapping shape
+               def deco(func):            [@wraps(func)]
+                   def wrapper(<params>): BODY that calls func(...)
+                   return wrapper
+        is read as what it produces: `f` becomes the wrapper's body with `func` standing for the undecorated function, which is kept under the name
+        `f__undecorated` (a helper the inliner can expand).  The other decorators of f stay on the new f."""
+        import copy
+
+        def wrapping_shape(d: ast.FunctionDef):
+            if len(d.args.args) != 1 or d.args.vararg or d.args.kwarg:
+                return None
+            body = [b for b in d.body if not (isinstance(b, ast.Expr) and isinstance(b.value, ast.Constant))]
+            if len(body) != 2 or not isinstance(body[0], ast.FunctionDef) or not isinstance(body[1], ast.Return) or not isinstance(body[1].value, ast.Name) \
+                    or body[1].value.id != body[0].name:
+                return None
+            w = body[0]
+            if any(not (isinstance(x, ast.Call) and isinstance(x.func, ast.Name) and x.func.id == 'wraps') for x in w.decorator_list):
+                return None
+            fparam = d.args.args[0].arg
+            if not any(isinstance(c, ast.Call) and isinstance(c.func, ast.Name) and c.func.id == fparam for c in ast.walk(w)):
+                return None
+            if any(isinstance(x, ast.Name) and x.id == fparam and not isinstance(getattr(x, 'ctx', None), ast.Load) for x in ast.walk(w)):
+                return None
+            return fparam, w
+        # decorators defined at module level, by module
+        shapes: Dict[Tuple[str, str], Tuple[str, ast.FunctionDef]] = {}
+        for mname, mod in self.modules.items():
+            for st in mod.tree.body:
+                if isinstance(st, ast.FunctionDef):
+                    sh = wrapping_shape(st)
+                    if sh is not None:
+                        shapes[(mname, st.name)] = sh
+        if not shapes:
+            return
+        for mname, mod in self.modules.items():
+            imported: Dict[str, Tuple[str, str]] = {}
+            bound_here = set()
+            for st in mod.tree.body:
+                if isinstance(st, ast.ImportFrom):
+                    tm = self._abs_module(mod, st.level, st.module)
+                    for a in st.names:
+                        imported[a.asname or a.name] = (tm, a.name)
+                        bound_here.add(a.asname or a.name)
+                elif isinstance(st, (ast.FunctionDef, ast.ClassDef)):
+                    bound_here.add(st.name)
+                elif isinstance(st, ast.Assign):
+                    bound_here |= {t.id for t in st.targets if isinstance(t, ast.Name)}
+                elif isinstance(st, ast.Import):
+                    bound_here |= {(a.asname or a.name.split('.')[0]) for a in st.names}
+            new_body: List[ast.stmt] = []
+            extra_imports: List[ast.stmt] = []
+            for st in mod.tree.body:
+                if not isinstance(st, ast.FunctionDef):
+                    new_body.append(st)
+                    continue
+                hit = None
+                for k, dec in enumerate(st.decorator_list):
+                    if isinstance(dec, ast.Name):
+                        key = (mname, dec.id) if (mname, dec.id) in shapes else imported.get(dec.id)
+                        if key in shapes:
+                            hit = (k, key)
+                if hit is None or hit[0] != len(st.decorator_list) - 1:          # only the innermost decorator wraps the function as written
+                    new_body.append(st)
+                    continue
+                k, key = hit
+                fparam, w = shapes[key]
+                inner = copy.deepcopy(st)
+                inner.name = f'{st.name}__undecorated'
+                inner.decorator_list = []
+
+                class _R(ast.NodeTransformer):
+                    def visit_Name(self_, n):
+                        if n.id == fparam:
+                            return ast.copy_location(ast.Name(id=inner.name, ctx=n.ctx), n)
+                        return n
+                outer = ast.FunctionDef(name=st.name, args=copy.deepcopy(w.args), body=[_R().visit(copy.deepcopy(b)) for b in w.body],
+                                        decorator_list=st.decorator_list[:k], returns=st.returns, type_comment=None)
+                if hasattr(st, 'type_params'):
+                    outer.type_params = []
+                ast.copy_location(outer, st)
+                ast.fix_missing_locations(outer)
+                # names the wrapper body takes from the decorator's module
+                dmod = self.modules[key[0]]
+                d_bound = {x.name for x in dmod.tree.body if isinstance(x, (ast.FunctionDef, ast.ClassDef))} | \
+                    {t.id for x in dmod.tree.body if isinstance(x, ast.Assign) for t in x.targets if isinstance(t, ast.Name)} | \
+                    {(a.asname or a.name) for x in dmod.tree.body if isinstance(x, ast.ImportFrom) for a in x.names}
+                wparams = {a.arg for a in w.args.args + w.args.kwonlyargs} | {inner.name}
+                for x in ast.walk(outer):
+                    if isinstance(x, ast.Name) and isinstance(x.ctx, ast.Load) and x.id not in bound_here and x.id not in wparams and x.id in d_bound and key[0] != mname:
+                        extra_imports.append(ast.ImportFrom(module=key[0], names=[ast.alias(name=x.id, asname=None)], level=0))
+                        bound_here.add(x.id)
+                new_body.append(inner)
+                new_body.append(outer)
+            if len(new_body) != len(mod.tree.body) or extra_imports:
+                for im in extra_imports:
+                    im.lineno = im.col_offset = 0
+                    ast.fix_missing_locations(im)
+                mod.tree.body = extra_imports + new_body
 
     def _abs_module(self, mod: Module, level: int, target: Optional[str]) -> str:
         if level == 0:
